@@ -55,6 +55,45 @@ def run(ck):
         if not good:
             wit.append({'kind': 'file-api-integrity', 'format': fmt, 'case': c, 'names': names, 'detail': detail})
     ck.count('file api runs', len(fres))
+    # extreme length ratios: one sequence of 66000..140000 residues and short fragments of it - a merge then inserts a run of more
+    # than 65535 (resp. 131071) consecutive gap columns into one side (gap counters are C ints).  Checked by the independent Python
+    # reading of the property (the extracted integrity_b counts in unary naturals and is not meant for such lengths).
+    import os, tempfile, shutil
+    tmp = tempfile.mkdtemp(prefix='kv_c01_huge_')
+    try:
+        kvh = ck.harness('omp', 'kvh')
+        hl, hm = [], []
+        for k in range(2 if ck.tier == 'quick' else 8):
+            kind = 'protein' if k % 2 == 0 else 'dna'
+            alpha = gen.PROT if kind == 'protein' else gen.DNA
+            L = ck.rng.choice([66000, 67000, 70000] if (ck.tier == 'quick' or k < 5) else [132000, 140000])
+            big = gen.rand_seq(ck.rng, alpha, L)
+            a = ck.rng.below(L - 500); frag = big[:ck.rng.range(120, 400)] if k % 3 != 2 else big[L - ck.rng.range(120, 400):]
+            seqs = [big, frag, big[a:a + ck.rng.range(150, 450)]]
+            if k % 2: seqs = [seqs[1], seqs[0], seqs[2]]
+            names = ['h%d_%d' % (k, i) for i in range(len(seqs))]
+            inp = os.path.join(tmp, 'huge%d.fa' % k); outp = os.path.join(tmp, 'huge%d.out' % k)
+            open(inp, 'w').write(gen.fasta(names, seqs, 60))
+            hl.append('runfile 0 %d %d %d %d %d fasta %s %s' % (ck.rng.choice([1, 4]), 5, gen.NG, gen.NG, gen.NG, outp, inp))
+            hm.append((names, seqs, outp, kind, L))
+            ck.count('extreme length ratio (one sequence of %d residues, fragments of 120..450)' % L)
+        ho = ck.run_lines(kvh, hl, timeout=1200)
+        ck.evaluations += len(hl)
+        for (names, seqs, outp, kind, L), o in zip(hm, ho):
+            problem = None
+            if not o.startswith('OK') or not os.path.exists(outp):
+                problem = 'run failed: ' + o[:100]
+            else:
+                onames, rows = gen.parse_fasta(open(outp, encoding='latin-1').read())
+                if onames != names: problem = 'names differ: %r' % (onames,)
+                elif len(set(len(r) for r in rows)) != 1: problem = 'row lengths differ: %r' % ([len(r) for r in rows],)
+                elif any(r.replace('-', '') != s for r, s in zip(rows, seqs)): problem = 'a degapped row is not the input sequence'
+                elif any(all(r[j] == '-' for r in rows) for j in range(len(rows[0]))): problem = 'all-gap column'
+            if problem:
+                wit.append({'kind': 'integrity-extreme-length-ratio', 'detail': problem, 'kind_of_sequence': kind, 'long_length': L,
+                            'fragments': seqs[1:] if len(seqs[0]) > 1000 else [seqs[0], seqs[2]], 'note': 'the long sequence is random over the alphabet; see the replay for lengths'})
+    finally:
+        shutil.rmtree(tmp, ignore_errors=True)
     c0, o0, d0, v0 = res[0]
     ck.sample({'input': c0, 'implementation_rows': o0.split('|')[0][:300], 'model_verdict': v0})
     if len(res) > 5:
